@@ -159,6 +159,84 @@ PROPS.update({
     },
 })
 
+
+# ---- likely subtags (feature likelysubtags): tables, cascade, minimize ---------------------------------------------
+TAB_NAMES = ['lang_only', 'lang_region', 'lang_script', 'script_region', 'script_only', 'region_only']
+TAB_SMALL_EQ = [K('langid_tables', n + '_eq_cldr') for n in TAB_NAMES if n != 'lang_only']
+TAB_SORTED = [K('langid_tables', n + '_sorted') for n in TAB_NAMES]
+TAB_WF = [K('langid_tables', n + '_wf') for n in TAB_NAMES]
+TAB_BIG_EQ = [K('langid_tables', 'lang_only_eq_cldr_%02d' % k, tier='thorough', timeout=2400, cost='5-8 min each') for k in range(14)]
+TAB_MISC = [K('langid_tables', 'cldr_version_matches'), K('langid_tables', 'wf_predicates_not_vacuous')]
+CASCADE_QUICK = [K('langid_likely', 'maximize_is_cascade_no_lang', timeout=900), K('langid_likely', 'maximize_is_cascade_lang_specific', timeout=1200),
+                 K('langid_likely', 'maximize_full_is_unchanged', timeout=900)]
+CASCADE_FULL = [K('langid_likely', 'maximize_is_cascade_lang', tier='thorough', timeout=3600, cost='19 min')]
+LIKELY_TRUST = ['ASSUMED std contract: <[T]>::binary_search_by_key on a slice strictly sorted by the key returns Ok(i) with key(s[i]) == k, '
+                'or Err(i) with key(s[i-1]) < k < key(s[i]) (contracts/kani/langid_likely.rs Bs::contract replaces it by kani::stub); strict sortedness of '
+                'each table is the U-TAB obligation *_sorted',
+                'raw inputs of the Kani harnesses range over all integers whose bytes are ASCII (the type invariant of TinyAsciiStr) and, for a '
+                'non-empty language, differ from the text `und`']
+
+PROPS.update({
+    'C18': {
+        'kani': TAB_SMALL_EQ + TAB_SORTED + TAB_WF + TAB_MISC + TAB_BIG_EQ + [K('langid_dir', 'layout_tables_eq_cldr')],
+        'verus': [V('bridge', BRIDGE_LID)],
+        'trusted': ['vf/gen.py (independent re-derivation of the expected tables from the CLDR JSON files: UTS #35 shape rules + little-endian ASCII integer form) is the oracle; '
+                    'the repository\'s generator binaries are not re-run',
+                    'LANG_ONLY (7143 rows) equality with CLDR is split into 14 chunk obligations (5-8 min each) that run in the thorough tier; the quick tier decides '
+                    'its length, strict order, well-formedness and key-keeping for every row and defers value equality (listed under deferred)'],
+        'explanation': 'closed obligations over the compiled statics of the real crate, each decided for EVERY row through one symbolic index: table == the CLDR data '
+                       'regenerated on every run, keys strictly increasing in the Ord of the key tuple that binary_search_by_key uses, every stored integer is the '
+                       'integer form of a well-formed canonically-cased subtag (wf predicates = the leaf predicates Verus proves equal to the spec), every value has '
+                       'language, script and region and keeps its key\'s subtags; the four direction constants equal the sets derived from the layout files; CLDR_VERSION matches',
+    },
+    'C06': {
+        'kani': TAB_SMALL_EQ + TAB_SORTED + TAB_WF + CASCADE_QUICK + CASCADE_FULL + TAB_BIG_EQ,
+        'trusted': LIKELY_TRUST,
+        'explanation': 'likelysubtags::maximize (real code) equals the cascade written from the statement of C06 — most specific matching entry: (language, region), '
+                       '(language, script), language; for an undetermined language (script, region), script; region — for ALL raw (language, script, region), with every '
+                       'given subtag kept and `unchanged` exactly when all three are present or no entry matches; the per-entry clause (maximize(K) == V for every CLDR entry) '
+                       'follows from the cascade, strict sortedness and table == CLDR (U-TAB)',
+    },
+    'C07': {
+        'kani': TAB_SORTED + TAB_WF + CASCADE_QUICK + CASCADE_FULL,
+        'verus': [V('langid', r'::LanguageIdentifier::(maximize|minimize)$', features=('likelysubtags',))],
+        'trusted': LIKELY_TRUST,
+        'explanation': 'every result of maximize has all three subtags and keeps every given one (asserted on the value in each cascade harness, for all raw inputs; the '
+                       'table facts it needs are read from the real tables), at least one subtag was missing, and maximize reports unchanged on every identifier with all '
+                       'three (idempotence); the LanguageIdentifier wrappers are verified in Verus (verbatim bodies): true => fields = the returned triple, false => unchanged, '
+                       'variants untouched in both cases; a Locale\'s extensions are outside the frame of id.maximize()',
+    },
+    'C08': {
+        'kani': [K('langid_likely', 'minimize_laws', timeout=1500), K('langid_likely', 'minimize_idempotent', timeout=900),
+                 K('langid_likely', 'minimize_after_maximize', timeout=1200), K('langid_likely', 'finding_minimize_after_maximize_und_arab_id', timeout=900),
+                 K('langid_likely', 'maximize_full_is_unchanged', timeout=900)],
+        'verus': [V('langid', r'::LanguageIdentifier::(maximize|minimize)$', features=('likelysubtags',))],
+        'trusted': ['minimize is verified against maximize\'s CONTRACT (kani::stub(maximize, M)): M is an arbitrary deterministic function with maximize\'s proved '
+                    'postconditions (C06/C07 harnesses): None when all three present, None for bare und, otherwise None or all three present with every given subtag kept'],
+        'explanation': 'for every function M with maximize\'s contract and ALL raw inputs: a changed result maximizes to the same triple, uses only its subtags, has no more '
+                       'script/region subtags than the input, is the first of {language, language-region, language-script} that maximizes back; minimize is idempotent; '
+                       'minimize(maximize(x)) == minimize(x) whenever one of the three forms maximizes back (the remaining inputs are known finding F1)',
+    },
+})
+
+
+PROPS.update({
+    'C14': {
+        'kani': [K('langid_dir', h) for h in ['layout_tables_eq_cldr', 'dir_is_model', 'dir_cldr_rows']] +
+                [K('langid_dir_likely', h) for h in ['layout_tables_eq_cldr', 'dir_is_model', 'dir_cldr_rows_direct', 'dir_cldr_rows_likely_model', 'dir_cldr_rows_split']] +
+                [K('langid_dir_likely', 'dir_cldr_rows_likely_real', tier='thorough', timeout=3600, cost='> 10 min')] + CASCADE_QUICK,
+        'trusted': LIKELY_TRUST + ['vf/gen.py derives the expected script / language sets, the 710 (locale, characterOrder) rows and, for the 72 script-less rows of '
+                                   'right-to-left languages, the likely script from the CLDR JSON files',
+                                   'with likely subtags enabled, character_direction is verified against maximize\'s CONTRACT (kani::stub(maximize, M)); that the real maximize '
+                                   'returns the likely script gen.py computed for the 72 rows is the thorough-tier obligation dir_cldr_rows_likely_real (quick tier: deferred; it '
+                                   'also follows from C06 + C18)'],
+        'explanation': 'for ALL raw (language, script, region) and variant lists, in both feature configurations, character_direction() (real code) equals the model of C14 over '
+                       'the CLDR-derived sets: a listed script decides on its own, otherwise a right-to-left language is RTL (refined to LTR when its likely script is a listed '
+                       'LTR script, likely subtags enabled), everything else LTR; variants never matter (the value is built with an arbitrary variant list); every one of the '
+                       '710 CLDR layout locales gets CLDR\'s characterOrder with likely subtags, and without them differs only for script-less identifiers of multi-direction languages',
+    },
+})
+
 NOT_APPLICABLE = {
     'C16': 'compile-time macro expansion (proc_macro::TokenStream, compile success/failure) is outside any function contract; see DESIGN.md',
 }
